@@ -149,7 +149,7 @@ func c07RandomScenario(r *rand.Rand) c07Sc {
 		}
 	}
 	// error values with a special meaning inside the library, each at most once per scenario (identity decides)
-	ek := []string{"ctx-canceled", "wrapped-canceled", "wrapped-deadline"}
+	ek := []string{"ctx-canceled", "wrapped-canceled", "wrapped-deadline", "typed-nil", "struct-value", "non-comparable"}
 	if sc.hasOutput() {
 		ek = append(ek, "wrapped-noout")
 	}
